@@ -88,7 +88,39 @@ fn check_reads(db: &DB, keys: &[Vec<u8>], cands: &BTreeSet<Model>, when: &str) -
             }
         }
     }
-    let explains_seeks = |m: &Model| seeks.iter().all(|(t, got)| m.range(t.clone()..).next().map(|(k, v)| (k.clone(), v.clone())) == *got);
+    // full scans, forwards and backwards, on fresh iterators: a scan that ends without an error
+    // must have delivered everything
+    let mut scans: Vec<(&'static str, Vec<(Vec<u8>, Vec<u8>)>)> = vec![];
+    for dir in ["forward", "backward"] {
+        match db.new_iterator(ReadOptions::default()) {
+            Err(_) => errs += 1,
+            Ok(it) => {
+                let mut it: DbIter = Box::new(it);
+                match if dir == "forward" { scan_forward(&mut it) } else { scan_backward(&mut it) } {
+                    Ok(kv) => scans.push((dir, kv)),
+                    Err(_) => errs += 1,
+                }
+            }
+        }
+    }
+    let explains_scans = |m: &Model| scans.iter().all(|(_, kv)| kv.len() == m.len() && kv.iter().zip(m.iter()).all(|((k, v), (mk, mv))| k == mk && v == mv));
+    let gets_ok = |m: &Model| got.iter().all(|(k, v)| m.get(k) == v.as_ref());
+    if cands.iter().any(|m| gets_ok(m)) && !cands.iter().any(|m| gets_ok(m) && explains_scans(m)) {
+        return Err((
+            "C08.stale_or_lost_read".into(),
+            format!(
+                "{}: a scan ended without an error but incomplete or wrong: {} (candidates: {})",
+                when,
+                scans
+                    .iter()
+                    .map(|(d, kv)| format!("{} scan [{}]", d, kv.iter().map(|(k, v)| format!("{}={}", esc(k), show_val(v))).collect::<Vec<_>>().join(" ")))
+                    .collect::<Vec<_>>()
+                    .join("; "),
+                cands.iter().map(show_model).collect::<Vec<_>>().join(" | ")
+            ),
+        ));
+    }
+    let explains_seeks = |m: &Model| explains_scans(m) && seeks.iter().all(|(t, got)| m.range(t.clone()..).next().map(|(k, v)| (k.clone(), v.clone())) == *got);
     let ok = cands.iter().any(|m| got.iter().all(|(k, v)| m.get(k) == v.as_ref()) && explains_seeks(m));
     if !ok && cands.iter().any(|m| got.iter().all(|(k, v)| m.get(k) == v.as_ref())) {
         return Err((
